@@ -39,7 +39,9 @@ RULE = ('one case = one (oracle clause, pair of model functions, nest structure,
         'available and the structure has a nest with parameter != 1 or an alternative outside every nest). '
         'distinct = distinct such keys.')
 ASSUMPTIONS = [
-    'grids of the per-seed alphabets of C05 (utilities, nest parameters, scale, alpha splits); J <= 3 quick, J <= 4 thorough',
+    'grids of the per-seed alphabets of C05 (utilities, nest parameters, scale, alpha splits); J <= 3 quick, J <= 4 thorough; '
+    'cross-nested structures: 2 nests (J <= 3 quick, J <= 4 thorough) or 3 nests (J = 2 quick, J <= 3 thorough), reduced '
+    'parameter assignments for the largest families (3 nests with J = 3, 2 nests with J = 4: two assignments)',
     'engine-vs-engine comparisons use relative 1e-10 + absolute 1e-12; tuple-vs-object relative 1e-13',
     'the value of G on rows where an alternative outside every nest is unavailable is not pinned by the statement '
     '(its derivative for available alternatives is): such rows are counted and excluded from the G-value clause only',
@@ -346,8 +348,12 @@ def tasks(tier, seed):
         for ch in B._chunks(range(len(structs)), per):
             t.append(dict(part='gen', J=J, structs=ch, seed=seed, tier=tier))
         for ch in B._chunks(range(len(structs)), per):
-            t.append(dict(part='nested', J=J, structs=ch, seed=seed, tier=tier))
-    for J, M, ns, pa, per in B.cnl_config(tier):
+            if J == 4 and len(structs[ch[0]][1]) >= 3:
+                for first in alph['mus']:
+                    t.append(dict(part='nested', J=J, structs=ch, first=first, seed=seed, tier=tier))
+            else:
+                t.append(dict(part='nested', J=J, structs=ch, seed=seed, tier=tier))
+    for J, M, ns, pa, per, _sc in B.cnl_config(tier):
         n = len(R.cnl_structures(alph['labels'][:J], M, alph['splits'][:ns]))
         for ch in B._chunks(range(n), per):
             t.append(dict(part='cnl', J=J, M=M, ns=ns, pa=pa, structs=ch, seed=seed, tier=tier))
@@ -374,6 +380,8 @@ def run_task(task):
         for si in task['structs']:
             alone, nests = structs[si]
             for mus in itertools.product(alph['mus'], repeat=len(nests)):
+                if task.get('first') is not None and mus[0] != task['first']:
+                    continue
                 check_nested_structure(alph, alts, alone, nests, list(mus), table, rec, tier, si)
             rec.sample(dict(part='nested', alts=alts, alone=alone, nests=nests, rows=len(table.groups) * J))
     elif task['part'] == 'cnl':
@@ -384,7 +392,11 @@ def run_task(task):
             if not any(0.0 < a < 1.0 for n in nests for a in n.values()):
                 rec.count('cnl_structure_without_cross_membership_covered_by_nested_part')
                 continue
-            for mus in B._cnl_mus(alph, task['M'], 'reduced' if tier == 'quick' else task['pa']):
+            mus_list = B._cnl_mus(alph, task['M'], 'reduced' if tier == 'quick' else task['pa'])
+            if (J, task['M']) in ((3, 3), (4, 2)):
+                # largest structure families: two parameter assignments (one with equal, one with distinct values)
+                mus_list = [mus_list[1], mus_list[-1]]
+            for mus in mus_list:
                 check_cnl_structure(alph, alts, alone, nests, list(mus), table, rec, tier, si)
         rec.sample(dict(part='cnl', alts=alts, M=task['M'], first=structs[task['structs'][0]]))
     elif task['part'] == 'gen':
